@@ -428,13 +428,15 @@ func (e *env) walk(n parse.Node, out *strings.Builder) {
 	case *parse.RangeNode:
 		coll := e.evalPipe(&parse.PipeNode{Cmds: x.Pipe.Cmds})
 		n := e.elems
-		// an emptiness test on the same collection binds the iteration count
-		if e.seen["lenʃ"+coll.s] && !e.atoms["lenʃ"+coll.s] {
+		// an emptiness test on the same collection (anywhere in the template)
+		// binds the iteration count
+		if v, known := e.atoms["lenʃ"+coll.s]; known && !v {
 			n = 0
 		}
-		if e.seen[coll.s] && !e.atoms[coll.s] {
+		if v, known := e.atoms[coll.s]; known && !v {
 			n = 0
 		}
+		e.seen["range:"+coll.s] = true
 		old := e.dot
 		for i := 1; i <= n; i++ {
 			el := sval{s: fmt.Sprintf("ε%d%s", i, ident(strings.TrimPrefix(coll.s, "δ"))), isData: true}
@@ -531,7 +533,9 @@ func Expand(t *Template, o Options) *Expansion {
 		for _, a := range tries {
 			_, seen := x.run(a, o.Elems)
 			for k := range seen {
-				atomSet[k] = true
+				if !strings.HasPrefix(k, "range:") {
+					atomSet[k] = true
+				}
 			}
 		}
 		if len(atomSet) == before {
@@ -560,6 +564,9 @@ func Expand(t *Template, o Options) *Expansion {
 		canon := map[string]bool{}
 		var ck []string
 		for k := range seen {
+			if strings.HasPrefix(k, "range:") {
+				continue
+			}
 			canon[k] = atoms[k]
 			ck = append(ck, fmt.Sprintf("%s=%v", k, atoms[k]))
 		}
